@@ -221,6 +221,103 @@ theorem build_query_step (fuel : Nat) (env : Env) (a b : Query) (p : Bool) :
     evalWith (applyFn (fuel + 1)) env (.call (.sym "or") [.lit (.query a), .lit (.query b)] p)
       = .ok (.query (.union [a, b])) := ⟨rfl, rfl⟩
 
+section variadic
+open B6.Model.Simplify
+
+/-- the encoding `argcOf` reproduces the guard of `simplifyCallWithNoArguments`: `(f)` becomes `f`
+exactly when `ArgCount` knows `f`, wants arguments, and `f` is not variadic; otherwise the call stays -/
+theorem postCall_argcOf (count : String → Option Nat) (variadic : String → Bool)
+    (simp : Expr → Option (Expr × Expr)) (s : String) (p : Bool) :
+    postCall (argcOf count variadic) simp (.sym s) [] p =
+      some (if noargGuard count variadic s then .sym s else .call (.sym s) [] p) := by
+  unfold postCall argcOf noargGuard
+  cases hc : count s with
+  | none => simp [hc]
+  | some n =>
+    cases hv : variadic s <;> simp [hc, hv]
+    by_cases hn : n > 0 <;> simp [hn]
+
+theorem matchPrefix_le : ∀ (ps : List String) (args : List Expr), matchPrefix ps args ≤ args.length
+  | [], _ => by simp [matchPrefix]
+  | _ :: _, [] => by simp [matchPrefix]
+  | p :: ps, a :: as => by
+    cases a <;> simp [matchPrefix]
+    split
+    · have := matchPrefix_le ps as; omega
+    · omega
+
+/-- the encoding `argcOf` reproduces `canDropLambdaArgs` (called with a non-empty parameter list that
+is a prefix of the arguments): the count must equal the number of arguments and the function must not
+be variadic -/
+theorem canDrop_argcOf (count : String → Option Nat) (variadic : String → Bool)
+    (ps : List String) (s : String) (args : List Expr) (hps : ps ≠ []) (hm : matchPrefix ps args = ps.length) :
+    canDrop (argcOf count variadic) ps (.sym s) args =
+      (count s == some args.length && !variadic s && ps.Nodup &&
+        (args.drop ps.length).all (fun r => !isCallExpr r && ps.all (fun p => !mentions p r))) := by
+  have hlen : args.length ≥ 1 := by
+    have h1 := matchPrefix_le ps args
+    have h2 : ps.length ≥ 1 := by cases ps <;> simp_all
+    omega
+  unfold canDrop argcOf
+  cases hc : count s with
+  | none => simp [hc]
+  | some n =>
+    cases hv : variadic s
+    · simp [hc, hv]
+    · have : (0 == args.length) = false := by simp; omega
+      simp [hc, hv, this]
+
+/-- a variadic function called without arguments is left alone: `(collection)` is a complete call (the
+empty collection), not the function `collection` -/
+theorem noarg_variadic_kept (simp : Expr → Option (Expr × Expr)) (s : String) (p : Bool)
+    (hv : variadicName s = true) :
+    postCall tableArgcV simp (.sym s) [] p = some (.call (.sym s) [] p) := by
+  unfold tableArgcV
+  rw [postCall_argcOf]
+  have : noargGuard tableCount variadicName s = false := by
+    unfold noargGuard
+    cases tableCount s <;> simp [hv]
+  simp [this]
+
+/-- **noarg_rewrite_sound.** With the function table of the run, `simplifyCallWithNoArguments` rewrites
+`(f)` to `f` only for a global function `f` of the table that is not variadic and wants at least one
+argument — and for those `(f)` and `f` denote the same function: the call evaluates to a partial
+application holding no arguments, and applying that to the full argument list is applying `f`. -/
+theorem noarg_rewrite_sound (simp : Expr → Option (Expr × Expr)) (s : String) (p : Bool)
+    (h : postCall tableArgcV simp (.sym s) [] p = some (.sym s)) :
+    variadicName s = false ∧ ∃ b, Builtin.ofName s = some b ∧ b.arity > 0 ∧
+      ∀ (fuel : Nat) (env : Env),
+        evalWith (applyFn (fuel + 1)) env (.call (.sym s) [] p) = .ok (.part (.builtin b) [] []) ∧
+        ∀ args, args.length = b.arity →
+          applyFn (fuel + 2) (.part (.builtin b) [] []) args = applyFn (fuel + 1) (.builtin b) args := by
+  unfold tableArgcV at h
+  rw [postCall_argcOf] at h
+  cases hg : noargGuard tableCount variadicName s with
+  | false => simp [hg] at h
+  | true =>
+    unfold noargGuard at hg
+    cases hc : tableCount s with
+    | none => simp [hc] at hg
+    | some n =>
+      simp only [hc, Bool.and_eq_true, decide_eq_true_eq, Bool.not_eq_true'] at hg
+      obtain ⟨hn, hv⟩ := hg
+      refine ⟨hv, ?_⟩
+      simp only [variadicName, Bool.or_eq_false_iff, beq_eq_false_iff_ne, ne_eq] at hv
+      have hc' : tableArgc s = some n := by
+        simpa [tableCount, hv.1, hv.2] using hc
+      unfold tableArgc at hc'
+      cases hb : Builtin.ofName s with
+      | none => simp [hb] at hc'
+      | some b =>
+        simp only [hb, Option.map_some, Option.some.injEq] at hc'
+        have hname : b.name = s := by
+          have := List.find?_some (by simpa [Builtin.ofName] using hb)
+          simpa using this
+        subst hname
+        refine ⟨b, rfl, by omega, fun fuel env => noarg_step fuel env b p (by omega) hb⟩
+
+end variadic
+
 /-- `{add -> pair 1 (add)} 7`: inside the lambda `(add)` calls the global function; simplified to
 `add` it is the lambda's parameter -/
 def shadowWitness : Expr :=
